@@ -87,6 +87,20 @@ RULES = {
         "MemoryPool::allocate_memory registers every non-null pointer it returns with counter 1 before returning it.", 4),
     "C20.pool-finalize": (
         "MemoryPool::finalize terminates with an error exactly when the pool is non-empty; Runtime::finalize reaches it on every normal path.", 2),
+    "C20.range-bound": (
+        "ranging: every function that stores a pointer `base + offset` derived from another container's array into its own "
+        "_elements/_indices (a view: DenseVector(dv, size, offset), DenseVectorBlocked(dv, size, offset)) with recorded extent E is "
+        "dominated by always-on assertions whose conjunction entails offset + E <= extent of the parent array (decided arithmetically: the "
+        "goal must be a non-negative combination of the asserted linear inequalities over unsigned quantities, after expressing blocked "
+        "quantities in scalars). Two separate bounds `offset < n` and `size <= n` do not entail it. Broken -> a view reaching beyond the "
+        "parent's allocation is handed out; format/copy/axpy on it read and write outside the allocation.", 2),
+    "C20.pool-unknown-address": (
+        "MemoryPool::increase_memory / release_memory (and allocated_size) look the address up in the pool; for an address that is not "
+        "registered (lookup == _pool.end()) no path may reach a normal exit: every path through the not-found side of the lookup test ends "
+        "in a noreturn call (XABORTM). That abort is the only enforcement of the documented precondition of the adopting constructors and "
+        "conversions ('the array must be allocated by FEAT's own memory pool') and the only detector of a second release. Broken (silent "
+        "return) -> a container adopting an interior pointer of a ranged slice never becomes a co-owner: dangling array after the real "
+        "owner is gone, double releases unnoticed.", 3),
     "C20.pool-null-consistency": (
         "allocate_memory(0) hands out nullptr as the array of a zero-length container slot, so release_memory and "
         "increase_memory must both accept nullptr as a no-op. Broken -> sharing (Shallow/Layout/Weak clone, same-type "
@@ -224,6 +238,26 @@ def lookup_of(fn, param):
                     len(i.get("a", [])) == 1 and L.unwrap(i["a"][0]).get("n") == param:
                 return n["d"]
     return None
+
+
+def lookup_tests(fn, itd):
+    """[(If node, found_when)]: branches whose whole condition compares the lookup iterator with _pool.end();
+    found_when = truth value of the condition when the address was found"""
+    out = []
+    for n in fn.nodes():
+        if n.get("k") == "If":
+            c = L.unwrap(n["c"])
+            neg = False
+            while c.get("k") == "Un" and c.get("op") == "!":
+                c = L.unwrap(c["e"])
+                neg = not neg
+            if c.get("k") in ("OpCall", "Bin") and c.get("op") in ("!=", "=="):
+                ops = c.get("a") or [c.get("lhs"), c.get("rhs")]
+                txt = [render(L.unwrap(x)) for x in ops]
+                ds = [L.unwrap(x).get("d") for x in ops]
+                if itd in ds and any(t.endswith("_pool.end()") or t.endswith("_pool.cend()") for t in txt):
+                    out.append((n, (c["op"] == "!=") != neg))
+    return out
 
 
 def found_branch(fn, itd):
@@ -524,6 +558,41 @@ def pool_rules(ck, facts, runtime_facts):
             bad.append(r.get("l"))
         ck.ob("C20.pool-allocate", tkey + "/registered-before-return", not bad,
               "returns at lines %s hand out a pointer that was not registered in the pool" % bad if bad else "every non-null return is preceded on all paths by the registration in _pool", fn.file, fn.line)
+
+    # ---- unknown addresses are refused
+    for name in ("increase_memory", "release_memory", "allocated_size"):
+        fs = [f for f in facts.functions if f.qn == "FEAT::MemoryPool::" + name]
+        if not fs:
+            if name != "allocated_size":
+                ck.incomplete("C20.pool-unknown-address", "MemoryPool::%s not found in the parsed TU" % name)
+            continue
+        fn = fs[0]
+        p = fn.params[0]["n"] if fn.params else "address"
+        itd = lookup_of(fn, p)
+        tests = lookup_tests(fn, itd) if itd is not None else []
+        if itd is None or not tests or fn.cfg is None:
+            ck.incomplete("C20.pool-unknown-address", "MemoryPool::%s: no `it = _pool.find(%s)` followed by a test against _pool.end() recognised" % (name, p))
+            continue
+        exits = set(fn.cfg.normal_exit_preds())
+        bad, undecided = [], []
+        for n, found_when in tests:
+            blk = [b for b in fn.cfg.blocks.values() if b.get("cond") == n["c"].get("i")]
+            if len(blk) != 1 or len(fn.cfg.succ.get(blk[0]["id"], [])) != 2:
+                undecided.append(n.get("l"))
+                continue
+            succ = fn.cfg.succ[blk[0]["id"]]
+            nf = succ[1] if found_when else succ[0]          # succ[0] is the true edge
+            reach = fn.cfg.reachable(nf)
+            # the entry found later on this path would be another lookup; a path back to the test itself (loop) is not expected
+            if nf == fn.cfg.exit or reach & exits:
+                bad.append(n.get("l"))
+        if undecided and not bad:
+            ck.incomplete("C20.pool-unknown-address", "MemoryPool::%s: the lookup test at line %s is part of a compound condition the check does not split" % (name, undecided[0]))
+            continue
+        ck.ob("C20.pool-unknown-address", "MemoryPool::%s/not-found-refuses" % name, not bad,
+              "every path through the not-found side of the lookup test (line %s) ends in a noreturn call" % tests[0][0].get("l") if not bad else
+              "the not-found side of the lookup test at line %s reaches a normal exit: %s(%s) of an address the pool does not know returns silently instead of aborting - "
+              "adopting an interior pointer (ranged slice) or releasing twice goes unnoticed" % (bad[0], name, p), fn.file, tests[0][0].get("l"))
 
     # ---- nullptr agreement
     rel_fn = (one("release_memory") or [None])[0]
@@ -840,6 +909,187 @@ def container_rules(ck, fam, prefix="C20."):
     return nfun
 
 
+def range_bound_rules(ck, fam, seen_fail):
+    import itertools
+    from fractions import Fraction
+
+    for fn in fam.functions():
+        if fn.body is None or fn.cfg is None:
+            continue
+        pushes = [n for n in fn.nodes() if n.get("k") == "MCall" and n.get("n") in L.PUSH and len(n.get("a") or []) == 1 and L.vec_member(n.get("obj"))
+                  and L.obj_id(L.vec_member(n["obj"])[1]) == "this"]
+        if not pushes:
+            continue
+        it = None
+        for pn in pushes:
+            if it is None:
+                it = L.Interp(fam, fn)
+                it.inline_accessors = True
+
+            def resolve_ptr(e, depth=0):
+                e = L.unwrap(e)
+                while e is not None and e.get("k") in ("Construct", "TempObj") and len(e.get("a", [])) == 1:
+                    e = L.unwrap(e["a"][0])
+                if e is not None and e.get("k") == "Ref" and e.get("dk") == "local" and depth < 4:
+                    defs = it.ptr_defs().get(e["d"], [])
+                    if len(defs) == 1:
+                        return resolve_ptr(defs[0], depth + 1)
+                return e
+            e = resolve_ptr(pn["a"][0])
+            if e is None or e.get("k") != "Bin" or e.get("op") != "+":
+                continue
+            base, off = resolve_ptr(e["lhs"]), e["rhs"]
+            if not (base is not None and base.get("k") == "MCall" and not base.get("a")):
+                base, off = resolve_ptr(e["rhs"]), e["lhs"]
+            if not (base is not None and base.get("k") == "MCall" and not base.get("a") and base.get("obj") is not None):
+                continue
+            parent = L.unwrap(base["obj"])
+            if parent.get("k") != "Ref" or not fam.is_family_type(fn.ntype(parent)):
+                continue
+            kind = L.vec_member(pn["obj"])[0]
+            key = "%s/this._%s/view-of-%s" % (L.fkey(fn), kind, parent["n"])
+
+            def opoly(x):
+                """polynomial with the accessors of this inlined to slots and the accessors of the parent object inlined to <parent>.slots"""
+                x = L.unwrap(x)
+                def rec(y):
+                    y = L.unwrap(y)
+                    k = y.get("k")
+                    if k in ("Construct", "TempObj") and len(y.get("a", [])) == 1:
+                        return rec(y["a"][0])
+                    if k == "Bin" and y.get("op") in ("+", "-", "*"):
+                        a, b = rec(y["lhs"]), rec(y["rhs"])
+                        if y["op"] == "*":
+                            out = {}
+                            for m1, c1 in a.items():
+                                for m2, c2 in b.items():
+                                    m = tuple(sorted(m1 + m2))
+                                    out[m] = out.get(m, 0) + c1 * c2
+                            return {m: c for m, c in out.items() if c}
+                        out = dict(a)
+                        for m, c in b.items():
+                            out[m] = out.get(m, 0) + (c if y["op"] == "+" else -c)
+                        return {m: c for m, c in out.items() if c}
+                    if k == "Ref" and y.get("dk") == "local" and y.get("d") in it.localdefs and not it.reassigned(y["d"]) and L.INT_T.match(fn.ntype(y) or ""):
+                        return rec(it.localdefs[y["d"]])
+                    if k == "MCall" and not y.get("a") and y.get("obj") is not None and L.unwrap(y["obj"]).get("k") == "Ref" \
+                            and L.unwrap(y["obj"]).get("d") == parent.get("d"):
+                        callee = fam.callee_fn(fn, y)
+                        rx = L.single_return_expr(callee) if callee is not None else None
+                        if rx is not None:
+                            with L._alias_scope():
+                                it2 = L.Interp(fam, callee)
+                            it2.inline_accessors = True
+                            pp = L.poly(it2, rx)
+                            L._ALIAS.clear()
+                            L._ALIAS.update(it.aliases)
+                            return {tuple(sorted(("%s.%s" % (parent["n"], a) if a.startswith("slot") else a) for a in m)): c for m, c in pp.items()}
+                    return L.poly(it, y)
+                return rec(x)
+
+            # recorded extent: the like-positioned push into the size vector
+            same_vec = [q for q in pushes if L.vec_member(q["obj"])[0] == kind]
+            sizes = [n for n in fn.nodes() if n.get("k") == "MCall" and n.get("n") in L.PUSH and len(n.get("a") or []) == 1 and L.size_member(n.get("obj"))
+                     and L.size_member(n["obj"])[0] == kind and L.obj_id(L.size_member(n["obj"])[1]) == "this"]
+            if len(sizes) != len(same_vec):
+                ck.incomplete("C20.range-bound", "%s: %d arrays but %d recorded extents pushed" % (key, len(same_vec), len(sizes)))
+                continue
+            ext = sizes[[q is pn for q in same_vec].index(True)]["a"][0]
+            sv = L.ctor_slot_values(it, max(pn.get("i", 0), 10 ** 9)) if fn.d.get("ctor") else None
+            def subst(p_):
+                for k_, v_ in (sv or {}).items():
+                    p_ = L.psubst(p_, k_, v_)
+                return p_
+            # parent extent: size<P>() of the parent for elements<P>() (same perspective)
+            cf = base.get("cfull", "")
+            m_ = re.search(r"<(.*)>$", cf)
+            acc = base.get("n")
+            if acc != "elements":
+                ck.incomplete("C20.range-bound", "%s: view of %s.%s(): extent of that array not derivable" % (key, parent["n"], acc))
+                continue
+            persp = (m_.group(1) if m_ else "")
+            # size<P>() of the parent's class (or of Container) in the perspective of the elements<P>() accessor
+            pcls = L.short(fn.ntype(parent).replace("const ", "").replace("&", "").strip())
+            cands = [c_ for c_ in fam.functions() if c_.name == "size" and not c_.params and L.short(c_.cls) in (pcls, "Container")
+                     and ("Perspective::pod" in persp) == ("Perspective::pod" in c_.full)]
+            cands.sort(key=lambda c_: L.short(c_.cls) != pcls)
+            sizefn = cands[0] if cands else None
+            rx = L.single_return_expr(sizefn) if sizefn is not None else None
+            if rx is None:
+                ck.incomplete("C20.range-bound", "%s: size accessor of the parent (%s perspective) not found" % (key, "pod" if "pod" in persp else "native"))
+                continue
+            with L._alias_scope():
+                it2 = L.Interp(fam, sizefn)
+            it2.inline_accessors = True
+            pp = L.poly(it2, rx)
+            L._ALIAS.clear()
+            L._ALIAS.update(it.aliases)
+            PARENT = {tuple(sorted(("%s.%s" % (parent["n"], a) if a.startswith("slot") else a) for a in m)): c for m, c in pp.items()}
+            OFF, E = subst(opoly(off)), subst(opoly(ext))
+            goal = L.psub(L.psub(PARENT, OFF), E)          # must be >= 0
+
+            # asserted inequalities dominating the push:  list of polynomials known to be >= 0
+            known, texts = [], []
+            def add_cond(c, truth=True):
+                c = L.unwrap(c)
+                if c.get("k") == "Un" and c.get("op") == "!":
+                    return add_cond(c["e"], not truth)
+                if c.get("k") == "Bin" and ((c.get("op") == "&&" and truth) or (c.get("op") == "||" and not truth)):
+                    add_cond(c["lhs"], truth)
+                    add_cond(c["rhs"], truth)
+                    return
+                if c.get("k") == "Bin" and c.get("op") in ("<", "<=", ">", ">=", "=="):
+                    op = c["op"]
+                    if not truth:
+                        if op == "==":
+                            return
+                        op = {"<": ">=", "<=": ">", ">": "<=", ">=": "<"}[op]
+                    a, b = subst(opoly(c["lhs"])), subst(opoly(c["rhs"]))
+                    if op in (">", ">="):
+                        a, b, op = b, a, {">": "<", ">=": "<="}[op]
+                    d = L.psub(b, a)          # b - a >= 0 (or >= 1)
+                    if op == "<":
+                        d = dict(d)
+                        d[()] = d.get((), 0) - 1
+                        d = {m: v for m, v in d.items() if v}
+                    known.append(d)
+                    texts.append(render(c)[:60])
+                    if op == "==":
+                        known.append(L.psub(a, b))
+            for c in fn.calls(name="assertion"):
+                if c.get("callee") == "FEAT::assertion" and c.get("a") and fn.cfg.stmt_dominates(c["i"], pn["i"]):
+                    add_cond(c["a"][0])
+            # guards of the form `if(cond) abort/throw/return` dominating the push are not read: remember that they exist
+            other_guards = [n for n in fn.nodes() if n.get("k") == "If" and any((is_call(x) and x.get("noreturn")) or x.get("k") in ("Throw", "Return") for x in walk(n.get("then") or {}))
+                            and n.get("i", 0) < pn.get("i", 0)]
+
+            def entailed():
+                """goal = sum(l_k * known_k) + (polynomial with non-negative coefficients): search small rational multipliers"""
+                if all(v >= 0 for v in goal.values()):
+                    return True
+                ks = known[:5]
+                for lam in itertools.product((0, 1, 2, Fraction(1, 2)), repeat=len(ks)):
+                    rest = dict(goal)
+                    for l_, kp in zip(lam, ks):
+                        for m, v in kp.items():
+                            rest[m] = rest.get(m, 0) - l_ * v
+                    if all(v >= 0 for v in rest.values()):
+                        return True
+                return False
+            ok = entailed()
+            det = "view %s = %s.%s + %s with recorded extent %s; parent extent %s; asserted before: [%s]" % (
+                render(pn["a"][0])[:40], parent["n"], "elements()", L.pshow(OFF), L.pshow(E), L.pshow(PARENT), "; ".join(texts) or "nothing")
+            if not ok and other_guards:
+                ck.incomplete("C20.range-bound", "%s: bound not entailed by the assertions, but the function has other guards (line %s) the check does not read" % (key, other_guards[0].get("l")))
+                continue
+            if not ok:
+                det += ": these do not entail offset + extent <= parent extent (e.g. two separate bounds on offset and size admit offset + size > parent size): the view may reach beyond the parent's allocation"
+                if ("range", key) in seen_fail:
+                    continue
+                seen_fail.add(("range", key))
+            ck.ob("C20.range-bound", key, ok, det, fn.file, pn.get("l"), sample={"function": fn.full, "detail": det})
+
+
 def extent_agreement_rules(ck, fam, seen_fail):
     groups = {}
     for fn in fam.functions():
@@ -941,6 +1191,7 @@ def run(tier):
 
     nfun = 0
     ea_seen = set()
+    rb_seen = set()
     for fx in all_facts:
         fam = L.Family([fx])
         if not {"DenseVector", "SparseMatrixCSR"} <= fam.classes and fx is facts:
@@ -956,6 +1207,7 @@ def run(tier):
             ck.incomplete("C20.exit-state", msg)
         nfun += container_rules(ck, fam)
         extent_agreement_rules(ck, fam, ea_seen)
+        range_bound_rules(ck, fam, rb_seen)
         if fx is facts:
             L.cross_clone_rules(ck, fam, set(), rule="C20.clone-cross-type")
     pool_rules(ck, facts, runtime)
